@@ -104,7 +104,8 @@ class CallMixin:
                 if c is not None and not c.inline:
                     return self.apply_contract(st, c, args, kwargs, node)
                 if not self.inline_calls and not (c is not None and c.inline):
-                    return self.havoc_call(st, f"repo:{f.b}", args, node)
+                    if not self.local_helper(f):
+                        return self.havoc_call(st, f"repo:{f.b}", args, node)
                 return self.inline_repo(st, f.a, f.b, args, kwargs, node)
             if f.how == "closure":
                 return self.inline_closure(st, f, args, kwargs, node)
@@ -128,6 +129,19 @@ class CallMixin:
         if isinstance(f, VUnk):
             return self.havoc_call(st, f"unknown:{f.tag}", args, node)
         self.unsupported(node, f"call of {f!r}")
+
+    def local_helper(self, f) -> bool:
+        """inline_local: a private module-level helper of the module under verification, small and not (yet) on the inline
+        stack -- `extract method` refactorings keep verifying because the helper body is executed in place."""
+        if not getattr(self, "inline_local", False) or f.a != self.module.rel or self.inline_depth >= 3:
+            return False
+        name = f.b.split(".")[-1]
+        if not name.startswith("_") or name.startswith("__"):
+            return False
+        fnode = self.module.functions.get(f.b)
+        if fnode is None or any(fnode is x for x in self.cur_fn_stack):
+            return False
+        return sum(1 for _ in ast.walk(fnode)) <= 700
 
     def havoc_call(self, st, what, args, node):
         """EXC-ANY: returns anything, raises any Exception, mutates mutable args."""
@@ -229,6 +243,7 @@ class CallMixin:
         if m is not self.module:
             sub = self.sub_executor(m)
             sub.abstract, sub.inline_calls, sub.merge = self.abstract, self.inline_calls, self.merge
+            sub.inline_local = getattr(self, "inline_local", False)
             sub.sinks = self.sinks
             env = sub.bind_params(fnode, args, kwargs, node)
             sub.sinks = self.sinks
